@@ -59,6 +59,5 @@ def run(ctx):
         ],
         assumptions=[
             "C10_alias_exact is stated for schemas satisfying the computable guard wf_schema (unique type names, no '__' names, every scalar configured, every referenced type defined and of the right kind: what `check` enforces plus scalar configuration); C10_schema_decls_total shows the printer cannot fail or panic under that guard",
-            "C10_alias_exact: whenever has_type_b decides (Some b) it decides like Ref; that it does decide for sufficient fuel is evaluated on the generated value domain on every run, not proved",
         ],
     )
